@@ -434,6 +434,93 @@ def _make_stdin(op):
     return io.TextIOWrapper(io.BufferedReader(raw, buffer_size=max(1, op.get("stdin_buf", 8192))), encoding=op.get("stdin_encoding"))
 
 
+class _WriteProxy:
+    """File object opened for writing under the run root: write / flush / close
+    are fault sites (disk full, I/O error, process death between two writes).
+    Everything else is delegated to the real file object."""
+
+    def __init__(self, handle, pclass, shown):
+        self.__dict__["_h"] = handle
+        self.__dict__["_pclass"] = pclass
+        self.__dict__["_shown"] = shown
+
+    def _site(self, what):
+        if S.armed and not S.busy:
+            S.busy = True
+            try:
+                fault = _hit("fs/%s/%s" % (what, self._pclass))
+                if fault is not None:
+                    _enact_fs(fault, what, self._pclass, self._shown)
+            finally:
+                S.busy = False
+
+    def write(self, data):
+        self._site("write")
+        return self._h.write(data)
+
+    def writelines(self, lines):
+        self._site("write")
+        return self._h.writelines(lines)
+
+    def flush(self):
+        self._site("flush")
+        return self._h.flush()
+
+    def close(self):
+        if not self._h.closed:
+            try:
+                self._site("close")
+            except OSError:
+                # the data could not be written out, the descriptor is released anyway
+                try:
+                    self._h.close()
+                except OSError:
+                    pass
+                raise
+        return self._h.close()
+
+    def __enter__(self):
+        self._h.__enter__()
+        return self
+
+    def __exit__(self, *exc):
+        self.close()
+        return False
+
+    def __iter__(self):
+        return iter(self._h)
+
+    def __next__(self):
+        return next(self._h)
+
+    def __getattr__(self, name):
+        return getattr(self._h, name)
+
+    def __setattr__(self, name, value):
+        setattr(self._h, name, value)
+
+
+def _install_write_seam():
+    import io
+
+    real_open = builtins.open
+
+    def open_with_write_sites(file, mode="r", *args, **kwargs):
+        handle = real_open(file, mode, *args, **kwargs)
+        if S.armed and not S.busy and isinstance(mode, str) and any(c in mode for c in "wax+") and isinstance(file, (str, bytes, os.PathLike)):
+            S.busy = True
+            try:
+                pclass, shown = _classify(file)
+            finally:
+                S.busy = False
+            if pclass in ("target", "work-new", "tmp"):
+                return _WriteProxy(handle, pclass, shown)
+        return handle
+
+    builtins.open = open_with_write_sites
+    io.open = open_with_write_sites
+
+
 def _install_world(world):
     import glob as _glob  # noqa: F401  (make sure it is imported before patching os)
     import shutil
@@ -768,6 +855,7 @@ def _child(request, root):
     _write_tree(request)
     os.chdir(S.work)
     _install_world(request.get("world") or {})
+    _install_write_seam()
     _install_pymarkdown_seams()
     cpu = int(request.get("cpu", 20))
     resource.setrlimit(resource.RLIMIT_CPU, (cpu, cpu + 2))
